@@ -1,9 +1,11 @@
 ------------------------------ MODULE GenLookup ------------------------------
 (* Generator of address-lookup histories (C13). *)
 EXTENDS Naturals, Sequences, FiniteSets, TLC, Json
-CONSTANTS LookupOrders, SortFlags, Reqs, Shapes, MaxRep
-VARIABLES cfg, h, nrep
-gvars == <<cfg, h, nrep>>
+CONSTANTS LookupOrders, SortFlags, Reqs, Shapes, MaxRep,
+          QCacheSet,   \* query cache lifetimes (0 = off)
+          Repeat       \* 1: the same lookup may be issued a second time at any point (answered from the cache where possible)
+VARIABLES cfg, h, nrep, again
+gvars == <<cfg, h, nrep, again>>
 
 ReqStep(r) ==
   CASE r = "gai0" -> [op |-> "gai", t |-> 1, name |-> "n1.test", family |-> 0, service |-> "80"]
@@ -20,8 +22,17 @@ ReqStep(r) ==
     [] r = "ghba4" -> [op |-> "ghba", t |-> 1, addr |-> 5, family |-> 4]
     [] r = "ghba6" -> [op |-> "ghba", t |-> 1, addr |-> 7, family |-> 6]
     [] r = "gni4" -> [op |-> "gni", t |-> 1, addr |-> 9, family |-> 4]
-Rep(s) ==
-  LET b == [op |-> "reply", tx |-> "last"] IN
+    [] r = "ghbah4" -> [op |-> "ghba", t |-> 1, addr |-> 517, family |-> 4]          \* listed in the hosts database
+    [] r = "ghbah6" -> [op |-> "ghba", t |-> 1, addr |-> 6, family |-> 6]            \* listed, short text form
+    [] r = "ghbal6" -> [op |-> "ghba", t |-> 1, addr |-> 7, family |-> 6, long |-> 1] \* listed, long text form
+    [] r = "ghbam6" -> [op |-> "ghba", t |-> 1, addr |-> 8, family |-> 6, long |-> 1] \* long text form, not listed
+    [] r = "gnih4" -> [op |-> "gni", t |-> 1, addr |-> 515, family |-> 4]
+    [] r = "gnil6" -> [op |-> "gni", t |-> 1, addr |-> 7, family |-> 6, long |-> 1]
+(* replies go to the latest transmission for the request's name that has not been answered yet
+   (for an A + AAAA lookup: first the AAAA question, then the A question); reverse lookups: the latest transmission *)
+TxOf(rq) == IF "name" \in DOMAIN rq /\ rq.op \in {"gai", "ghbn"} THEN "name:" \o rq.name ELSE "last"
+Rep(s, rq) ==
+  LET b == [op |-> "reply", tx |-> TxOf(rq)] IN
   CASE s = "one" -> b @@ [kind |-> "ok", n |-> 1, ttl |-> 60]
     [] s = "three" -> b @@ [kind |-> "ok", n |-> 3, ttls |-> <<30, 5, 700>>]
     [] s = "cname2" -> b @@ [kind |-> "ok", n |-> 2, cname |-> 1, cnamettl |-> 3, ttl |-> 60]
@@ -29,10 +40,12 @@ Rep(s) ==
     [] s = "nodata" -> b @@ [kind |-> "nodata"]
     [] s = "nx" -> b @@ [kind |-> "nx"]
     [] s = "five" -> b @@ [kind |-> "ok", n |-> 5, ttl |-> 10]
-GInit == /\ \E lo \in LookupOrders, sf \in SortFlags :
-              cfg = [nsrv |-> 1, tries |-> 1, timeout |-> 1000, seed |-> 1, lookups |-> lo, hostsfile |-> 1, gaiflags |-> sf]
+GInit == /\ \E lo \in LookupOrders, sf \in SortFlags, qc \in QCacheSet :
+              cfg = [nsrv |-> 1, tries |-> 1, timeout |-> 1000, seed |-> 1, lookups |-> lo, hostsfile |-> 1, gaiflags |-> sf, qcache |-> qc]
          /\ \E r \in Reqs : h = <<ReqStep(r)>>
-         /\ nrep = 0
-GNext == /\ nrep < MaxRep /\ \E s \in Shapes : h' = Append(h, Rep(s)) /\ nrep' = nrep + 1 /\ UNCHANGED cfg
+         /\ nrep = 0 /\ again = FALSE
+GNext == \/ /\ nrep < MaxRep /\ \E s \in Shapes : h' = Append(h, Rep(s, h[1])) /\ nrep' = nrep + 1 /\ UNCHANGED <<cfg, again>>
+         \/ /\ Repeat = 1 /\ ~again /\ nrep >= 1
+            /\ h' = Append(h, [h[1] EXCEPT !.t = 2]) /\ again' = TRUE /\ UNCHANGED <<cfg, nrep>>
 Emit == PrintT(ToJson([cfg |-> cfg, steps |-> h]))
 =============================================================================
